@@ -994,7 +994,9 @@ class IntermediateCodeGen(AbstractCodeGen):
         self._importMap.clear()
         self._out.clear()
         self._moduleIdentityOid = None
+        self._moduleRevision = None
         self._enterpriseOid = None
+        self.fakeidx = type(self).fakeidx
         self._oids = set()
         self._complianceOids = []
         self.moduleName[0], moduleOid, imports, declarations = ast
